@@ -47,14 +47,35 @@ func (pass *FilterSchemas) buildAllowList(schemas ast.Schemas, entrypoints []Obj
 		rootObjects.Set(obj.SelfRef.String(), obj)
 	}
 
+	addDependency := func(ref ast.RefType) {
+		referredObj, found := schemas.LocateObject(ref.ReferredPkg, ref.ReferredType)
+		if !found {
+			return
+		}
+
+		rootObjects.Set(ref.String(), referredObj)
+	}
+
 	visitor := &Visitor{
 		OnRef: func(_ *Visitor, _ *ast.Schema, def ast.Type) (ast.Type, error) {
-			referredObj, found := schemas.LocateObject(def.Ref.ReferredPkg, def.Ref.ReferredType)
-			if !found {
-				return def, nil
-			}
+			addDependency(def.AsRef())
 
-			rootObjects.Set(def.Ref.String(), referredObj)
+			return def, nil
+		},
+		OnConstantRef: func(_ *Visitor, _ *ast.Schema, def ast.Type) (ast.Type, error) {
+			constantRef := def.AsConstantRef()
+			addDependency(ast.RefType{ReferredPkg: constantRef.ReferredPkg, ReferredType: constantRef.ReferredType})
+
+			return def, nil
+		},
+		OnMap: func(visitor *Visitor, schema *ast.Schema, def ast.Type) (ast.Type, error) {
+			// the index type of a map can refer to objects too
+			if _, err := visitor.VisitType(schema, def.AsMap().IndexType); err != nil {
+				return def, err
+			}
+			if _, err := visitor.VisitType(schema, def.AsMap().ValueType); err != nil {
+				return def, err
+			}
 
 			return def, nil
 		},
